@@ -143,11 +143,11 @@ PROPS = {
     "C12": entry(
         "A table returns every item written to it through every read path",
         [ia("tables", 600, 30000), ia("filters", 300, 10000)],
-        "I-A: generated sorted multi-version streams (version slabs straddling block boundaries, tombstones, weak tombstones, long shared prefixes, entries larger than a block, single-entry tables) x writer settings (block size 1..4096, restart interval 1/2/16, hash ratio 0/0.75/8, partitioned index / filter, bloom none/bpk/fpr, global seqno 0/7, pinning) written by the real Writer, recovered by Table::recover; full scan, >= 30 point probes (absent keys between present ones, seqnos around every version), >= 8 ranged scans with random bounds and F/B words, metadata, per-block item counts, index end keys and (hash ratio 0) the BYTES of every data block compared with the model; independent C12 oracle on the real results; non-trivial = tables with >= 2 data blocks",
+        "I-A: generated sorted multi-version streams (version slabs straddling block boundaries, tombstones, weak tombstones, long shared prefixes, entries larger than a block, single-entry tables) x writer settings (block size 1..4096, restart interval 1/2/16, hash ratio 0/0.75/8, partitioned index / filter, bloom none/bpk/fpr, global seqno 0/7, pinning) written by the real Writer, recovered by Table::recover; full scan, >= 30 point probes (absent keys between present ones, seqnos around every version), >= 8 ranged scans with random bounds and F/B words, metadata, per-block item counts, index end keys, (hash ratio 0) the BYTES of every data block and the 29 items of the META block (model parse of the real items = recovered fields; model items built from the written stream = real items) compared with the model; independent C12 oracle on the real results; non-trivial = tables with >= 2 data blocks",
         TECH,
-        "c12_scan, c12_index, c12_point (incl. version slabs spanning blocks; the seek rule is proved right), c12_get (global seqno shift, early exit, any filter without false negatives), c12_range_both_ends (all bounds, all words), c12_meta (streaming bookkeeping = declarative), c12_filter_complete, c12_block_seek (restart-head jump), c12_block_codec_roundtrip (varint, full / truncated entries, binary index, trailer) — for every stream, block size and restart interval.",
+        "c12_scan, c12_index, c12_point (incl. version slabs spanning blocks; the seek rule is proved right), c12_get (global seqno shift, early exit, any filter without false negatives), c12_range_both_ends (all bounds, all words), c12_meta (streaming bookkeeping = declarative), c12_filter_complete, c12_block_seek (restart-head jump), c12m_meta_roundtrip / c12m_meta_block_roundtrip / c12m_recovered_meta_declarative (the META block: the 29 recorded properties are read back by recovery exactly, at item and byte level, and equal the declarative facts of the stream), c12_block_codec_roundtrip (varint, full / truncated entries, binary index, trailer) — for every stream, block size and restart interval.",
         "the byte-level backward / seek decoder and the two-level index are validated by correspondence only; c12_range_both_ends assumes seqno < u64::MAX (the real code skips a block ending in (key, u64::MAX) on a lower-bound seek; unreachable with real sequence numbers)",
-        "7 C12"),
+        "7 C12", modules=["C12", "C12m"]),
     "C04": entry(
         "Flushed data survives reopen and reopen restores exactly the flushed state",
         [ib("reopen", 500, 20000, blob=2, ops=50), ib("ingest", 200, 8000, blob=2, ops=50), ia("manifest", 150, 4000)],
